@@ -91,6 +91,18 @@ func genC02(rt *rapid.T) *FmtCase {
 			}
 			vc := &valConfig{two: true, sameLen: d.hasWP(), shareInts: string(d.Verb) == "c", maxDepth: 2, reg: reg, bytesAlpha: bytesAlpha,
 				noWrappers: string(d.Verb) == "p"} // see above
+			if rapid.IntRange(0, 14).Draw(rt, "hmsv") == 0 {
+				// keys of a SafeValue type (shared), unsafe values (varied), all
+				// of it out of reach of Interface()
+				hv := &Val{K: "hmsv"}
+				hn := rapid.IntRange(1, 3).Draw(rt, "hmsvn")
+				vc.genStrKeys(rt, hv, hn, true)
+				for j := 0; j < hn; j++ {
+					hv.Sub = append(hv.Sub, vc.leafS(rt, "str", false, false))
+				}
+				c.Args = append(c.Args, hv)
+				continue
+			}
 			c.Args = append(c.Args, vc.genVal(rt, 0, false))
 		}
 		if rapid.IntRange(0, 2).Draw(rt, "taillit") > 0 {
